@@ -16,7 +16,7 @@ package link_holdopen_controller
 //@   noframe
 //@   nosweep nil-deref
 //@   cs establishLinkHandler.mtx ensures old(self.rigidRef) != nil ==> self.rigidRef == old(self.rigidRef) || self.rigidRef == nil
-//@   cs establishLinkHandler.mtx ensures self.valCount == old(self.valCount) + 1
+//@   cs establishLinkHandler.mtx ensures self.valCount == old(self.valCount) + 1 && self.rigidRef == old(self.rigidRef)
 
 // the acquiring goroutine
 //@ func (*establishLinkHandler).HandleValueAdded$1
@@ -30,6 +30,7 @@ package link_holdopen_controller
 //@   cs establishLinkHandler.mtx ensures old(self.rigidRef) != nil ==> self.rigidRef == old(self.rigidRef) || self.rigidRef == nil
 //@   cs establishLinkHandler.mtx ensures old(self.valCount) > 0 ==> self.valCount == old(self.valCount) - 1
 //@   cs establishLinkHandler.mtx ensures self.valCount == 0 ==> self.rigidRef == nil
+//@   cs establishLinkHandler.mtx ensures self.valCount > 0 ==> self.rigidRef == old(self.rigidRef)
 
 //@ func (*establishLinkHandler).HandleInstanceDisposed
 //@   noframe
